@@ -144,6 +144,17 @@ pub fn run_c18(tier: &str) -> i32 {
             }
         }
     }
+    for prefix in ["\u{e9}", "\u{e9}-", "\u{e9}\u{e9}", "-\u{20ac}", "\u{1f600}"] {
+        for d in ["run", "write", "temp", ""] {
+            for k in 0..=prefix.len() + 1 {
+                for tail in ["", "x", "\u{e9}"] {
+                    let mut t = Tree::new();
+                    tfile(&mut t, "s.txt.txtpp", format!("{prefix}TXTPP#{d} a\n{}{tail}\nEND\n", " ".repeat(k)));
+                    jobs.push((format!("prefix {prefix:?} directive {d:?} followed by {k} spaces + {tail:?}"), t, Box::new(|e: &Env, m: &Mode| e.cfg(m))));
+                }
+            }
+        }
+    }
     for n in [8191usize, 8192, 8193, 65537] {
         for shape in ["text", "directive-arg", "prefix", "cr-in-the-middle"] {
             let line = match shape {
